@@ -2,34 +2,43 @@
 
 `tbsutil.py` (C12) builds systems of input variables; the clone property needs variables *with
 formulas* (person and group, dated and eternal) whose reads are known, so this module has its own
-small description:
+small description (text forms: lean/OFCore/OFCore/Drv/Heap.lean):
 
-    system  = list of (entity, unit, default, formula)      entity 0 = person, k >= 1 = group g<k>
+    system  = list of (entity, unit, default, formula, vtype, blacklisted)   entity 0 = person, k >= 1 = group g<k>
     formula = None | (const, [(coef, dep, via, pt), ...])   via: s = population(dep, p)
                                                                   m = group.sum(group.members(dep, p))
                                                                   p = person.<group of dep>(dep, p)
                                                                   mr<role> = group.sum(group.members(dep, p), role=ROLE)
                                                                   nb<role> = group.nb_persons(role=ROLE)
                                                                   hr<g>_<role> = person.has_role(ROLE of group g)
+                                                                  pa = parameters(period).p0   (three-argument formula)
+                                                             pt:  s = the requested period, l = period.last_month
     every group entity has the roles r0 (sub-roles r0s0, r0s1), r1, r2 (max 1); <role> is the set of flattened
     roles satisfying it: 0_1 (r0) | 0 (r0s0) | 1 (r0s1) | 2 (r1) | 3 (r2)
-                                                             pt:  s = the requested period, l = period.last_month
-    spec    = (persons, [(entity, count, members_entity_id, roles | None), ...], mem)    mem: None | [priority variables]
+    vtype   = f | i | b | e | s | d   (float, int, bool, enum of 10 members, str, date); the protocol carries integers:
+              enum = member index, str "s<k>" = k, date = days since 1970-01-01, bool = 0/1
+    spec    = (persons, [(entity, count, members_entity_id, roles | None, positions | None), ...],
+               mem: None | (priority variables, variables to drop), opt_out_cache, max_spiral_loops)
 
-The text forms are those of lean/OFCore/OFCore/Drv/Heap.lean.  Values are float variables holding
-small integers, so every float32 operation of the engine is exact.
+Numeric values are small integers, so every float32 operation of the engine is exact.
 """
 from __future__ import annotations
 
+import datetime as dt
 import functools
 import gc
 import shutil
 from fractions import Fraction
 
 UNITS = ("month", "year", "eternity", "day", "week", "weekday")
+VTYPES = "fibesd"
+ENUM_SIZE = 10
+EPOCH = dt.date(1970, 1, 1)
+PARAM_VALUE = 7
 STD_ROLES = ((0, 1), (0,), (1,), (2,), (3,))
 ROLE_DESCRIPTIONS = [{"key": "r0", "plural": "r0s", "subroles": ["r0s0", "r0s1"]}, {"key": "r1", "plural": "r1s"},
                      {"key": "r2", "plural": "r2s", "max": 1}]
+SIDES = "oc23456789"
 
 
 class Malformed(Exception):
@@ -61,7 +70,6 @@ def _split(s, sep):
 
 
 def parse_period(s):
-    """-> the string the real API takes, or raises Malformed"""
     if s == "eternity":
         return ("eternity", None, None)
     parts = s.split("/")
@@ -81,8 +89,8 @@ def parse_role(s):
 
 
 def parse_via(v):
-    """-> "s" | "m" | "p" | ("mr", role) | ("nb", role) | ("hr", g, role)"""
-    if v in ("s", "m", "p"):
+    """-> "s" | "m" | "p" | "pa" | ("mr", role) | ("nb", role) | ("hr", g, role)"""
+    if v in ("s", "m", "p", "pa"):
         return v
     if v.startswith("mr") or v.startswith("nb"):
         return (v[:2], parse_role(v[2:]))
@@ -104,35 +112,50 @@ def parse_sys(s):
     out = []
     for v in _split(s, ";"):
         f = v.split(":")
-        if len(f) != 4 or f[1] not in UNITS:
+        if len(f) != 4:
+            raise Malformed(v)
+        u = f[1]
+        black = u.endswith("!")
+        if black:
+            u = u[:-1]
+        u, _, vt = u.partition("~")
+        vt = vt or "f"
+        if u not in UNITS or vt not in VTYPES or len(vt) != 1:
             raise Malformed(v)
         if f[3] == "-":
             formula = None
         else:
             parts = f[3].split("+")
             formula = (_int(parts[0]), [parse_term(t) for t in parts[1:]])
-        out.append((_nat(f[0]), f[1], _int(f[2]), formula))
+        out.append((_nat(f[0]), u, _int(f[2]), formula, vt, black))
     return out
 
 
 def parse_spec(s):
     f = s.split("/")
-    if len(f) != 3:
+    if len(f) != 4:
         raise Malformed(s)
     groups = []
     for g in _split(f[1], ","):
         gf = g.split(":")
-        if len(gf) != 4:
+        if len(gf) != 5:
             raise Malformed(g)
         groups.append((_nat(gf[0]), _nat(gf[1]), [_nat(x) for x in _split(gf[2], ".")],
-                       None if gf[3] == "-" else [_nat(x) for x in _split(gf[3], ".")]))
+                       None if gf[3] == "-" else [_nat(x) for x in _split(gf[3], ".")],
+                       None if gf[4] == "-" else [_nat(x) for x in _split(gf[4], ".")]))
     if f[2] == "-":
         mem = None
     elif f[2].startswith("d"):
-        mem = [_nat(x) for x in _split(f[2][1:], ".")]
+        parts = f[2][1:].split("x")
+        if len(parts) > 2:
+            raise Malformed(s)
+        mem = ([_nat(x) for x in _split(parts[0], ".")], [_nat(x) for x in _split(parts[1], ".")] if len(parts) == 2 else [])
     else:
         raise Malformed(s)
-    return (_nat(f[0]), groups, mem)
+    o, _, k = f[3].partition("m")
+    if o not in ("o0", "o1") or "m" not in f[3]:
+        raise Malformed(s)
+    return (_nat(f[0]), groups, mem, o == "o1", _nat(k))
 
 
 def parse_op(s):
@@ -141,7 +164,7 @@ def parse_op(s):
         return ("s", _nat(f[1]), parse_period(f[2]), [_int(x) for x in _split(f[3], ",")])
     if f[0] == "d" and len(f) == 3:
         return ("d", _nat(f[1]), None if f[2] == "*" else parse_period(f[2]))
-    if f[0] in ("k", "a") and len(f) == 3:
+    if f[0] in ("k", "a", "g") and len(f) == 3:
         return (f[0], _nat(f[1]), parse_period(f[2]))
     if f[0] == "t" and len(f) == 2 and f[1] in ("0", "1"):
         return ("t", f[1] == "1")
@@ -150,18 +173,65 @@ def parse_op(s):
     raise Malformed(s)
 
 
-def parse_side_op(s):
-    if s[:1] not in ("o", "c"):
+def parse_flags(s):
+    if s not in ("00", "01", "10", "11"):
         raise Malformed(s)
-    return (s[0], parse_op(s[1:]))
+    return (s[0] == "1", s[1] == "1")
+
+
+def parse_side(c):
+    if len(c) != 1 or c not in SIDES:
+        raise Malformed(c)
+    return SIDES.index(c)
+
+
+def parse_event(s):
+    """-> (simulation index, ("n", trace, debug) | ("r", v, period, source index, w, q) | call)"""
+    side = parse_side(s[:1])
+    f = s[1:].split(":")
+    if f[0] == "n" and len(f) == 2:
+        return (side, ("n",) + parse_flags(f[1]))
+    if f[0] == "r" and len(f) == 6:
+        return (side, ("r", _nat(f[1]), parse_period(f[2]), parse_side(f[3]), _nat(f[4]), parse_period(f[5])))
+    return (side, parse_op(s[1:]))
 
 
 def parse_run(args):
-    """fields after `heap run` -> (sys, spec, pre, trace, ops, sys_text)"""
-    if len(args) != 5 or args[3] not in ("0", "1"):
+    """fields after `heap run` -> (sys, spec, pre, (trace, debug), events, sys_text)"""
+    if len(args) != 5:
         raise Malformed(" ".join(args))
     return (parse_sys(args[0]), parse_spec(args[1]), [parse_op(o) for o in _split(args[2], ";")],
-            args[3] == "1", [parse_side_op(o) for o in _split(args[4], ";")], args[0])
+            parse_flags(args[3]), [parse_event(o) for o in _split(args[4], ";")], args[0])
+
+
+def check_run(sysd, spec, events) -> None:
+    """what the driver answers BAD to"""
+    n, groups, mem, _, _ = spec
+    ks = [g[0] for g in groups]
+    if 0 in ks or len(set(ks)) != len(ks):
+        raise Malformed("groups")
+    for e, count, mei, roles, positions in groups:
+        if len(mei) != n or any(g >= count for g in mei):
+            raise Malformed("members")
+        if roles is not None and (len(roles) != n or any(r >= 4 for r in roles)):
+            raise Malformed("roles")
+        if positions is not None and len(positions) != n:
+            raise Malformed("positions")
+    for e, _, _, formula, _, _ in sysd:
+        if e != 0 and e not in ks:
+            raise Malformed("entity")
+        for _, _, via, _ in (formula[1] if formula else []):
+            if isinstance(via, tuple):
+                if via[0] == "hr" and (via[1] not in ks or e != 0):
+                    raise Malformed("has_role")
+                if via[0] in ("mr", "nb") and e == 0:
+                    raise Malformed("role of a person variable")
+    live = 2
+    for side, ev in events:
+        if side >= live or (ev[0] == "r" and ev[3] >= live):
+            raise Malformed("side")
+        if ev[0] == "n":
+            live += 1
 
 
 # --------------------------------------------------------------------------------------
@@ -179,92 +249,97 @@ def role_object(entity, role):
     return entity.flattened_roles[role[0]]
 
 
-def _make_formula(const, terms, names, dep_entity_keys, ents):
-    import numpy
+def _term_value(population, period, term, names, dep_entity_keys, ents, parameters):
+    coef, dep, via, pt = term
+    p = period if pt == "s" else period.last_month
+    if via == "s":
+        return population(names[dep], p)
+    if via == "m":
+        return population.sum(population.members(names[dep], p))
+    if via == "p":
+        return getattr(population, dep_entity_keys[dep])(names[dep], p)
+    if via == "pa":
+        import numpy
+        return numpy.full(population.count, float(parameters(period).p0))
+    if via[0] == "mr":
+        return population.sum(population.members(names[dep], p), role=role_object(population.entity, via[1]))
+    if via[0] == "nb":
+        return population.nb_persons(role=role_object(population.entity, via[1]))
+    return population.has_role(role_object(ents[via[1]], via[2])) * 1.0
 
-    def formula(population, period):
+
+def _make_formula(const, terms, names, dep_entity_keys, ents):
+    def body(population, period, parameters):
+        if not terms:
+            return float(const)                # a scalar: the engine fills the array itself
+        import numpy
         total = numpy.full(population.count, float(const))
-        for coef, dep, via, pt in terms:
-            p = period if pt == "s" else period.last_month
-            if via == "s":
-                a = population(names[dep], p)
-            elif via == "m":
-                a = population.sum(population.members(names[dep], p))
-            elif via == "p":
-                a = getattr(population, dep_entity_keys[dep])(names[dep], p)
-            elif via[0] == "mr":
-                a = population.sum(population.members(names[dep], p), role=role_object(population.entity, via[1]))
-            elif via[0] == "nb":
-                a = population.nb_persons(role=role_object(population.entity, via[1]))
-            else:
-                a = population.has_role(role_object(ents[via[1]], via[2])) * 1.0
+        for term in terms:
+            a = _term_value(population, period, term, names, dep_entity_keys, ents, parameters)
             if len(a) != len(total):           # numpy would broadcast a length-1 operand silently
                 raise ValueError("operands of different lengths")
-            total = total + coef * a
+            total = total + term[0] * a
         return total
 
+    if any(t[2] == "pa" for t in terms):
+        def formula(population, period, parameters):
+            return body(population, period, parameters)
+    else:
+        def formula(population, period):
+            return body(population, period, None)
     return formula
-
-
-def check_run(sysd, spec) -> None:
-    """what the driver answers BAD to: group entities are >= 1 and distinct, every variable lives in a
-    declared entity, every person has a group index below the group count"""
-    n, groups, mem = spec
-    ks = [g[0] for g in groups]
-    if 0 in ks or len(set(ks)) != len(ks):
-        raise Malformed("groups")
-    for e, count, mei, roles in groups:
-        if len(mei) != n or any(g >= count for g in mei):
-            raise Malformed("members")
-        if roles is not None and (len(roles) != n or any(r >= 4 for r in roles)):
-            raise Malformed("roles")
-    for e, _, _, formula in sysd:
-        if e != 0 and e not in ks:
-            raise Malformed("entity")
-        for _, _, via, _ in (formula[1] if formula else []):
-            if isinstance(via, tuple):
-                if via[0] == "hr" and (via[1] not in ks or e != 0):
-                    raise Malformed("has_role")
-                if via[0] in ("mr", "nb") and e == 0:
-                    raise Malformed("role of a person variable")
 
 
 @functools.lru_cache(maxsize=256)
 def make_system(sys_text: str, ks: tuple):
     """the real TaxBenefitSystem of a system description over the group entities `ks` (cached);
-    -> (tbs, names)"""
-    from openfisca_core import entities, periods, taxbenefitsystems, variables
+    -> (tbs, names, vtypes)"""
+    from openfisca_core import entities, indexed_enums, parameters, periods, taxbenefitsystems, variables
 
     sysd = parse_sys(sys_text)
     ents = {0: entities.Entity("person", "persons", "", "")}
     for k in ks:
         ents[k] = entities.GroupEntity(f"g{k}", f"g{k}s", "", "", roles=[dict(d) for d in ROLE_DESCRIPTIONS])
     tbs = taxbenefitsystems.TaxBenefitSystem([ents[0]] + [ents[k] for k in ks])
+    tbs.parameters = parameters.ParameterNode("", data={"p0": {"values": {"1900-01-01": {"value": PARAM_VALUE}}}})
+    enum = indexed_enums.Enum("OfvE", {f"m{i}": f"m{i}" for i in range(ENUM_SIZE)})
     names = [f"v{i}" for i in range(len(sysd))]
-    dep_keys = [entity_key(e) for e, _, _, _ in sysd]
-    for i, (e, unit, dflt, formula) in enumerate(sysd):
+    dep_keys = [entity_key(x[0]) for x in sysd]
+    pytype = {"f": float, "i": int, "b": bool, "e": indexed_enums.Enum, "s": str, "d": dt.date}
+    for i, (e, unit, dflt, formula, vt, black) in enumerate(sysd):
         if e not in ents:
             raise Malformed(f"entity {e}")
-        attrs = {"value_type": float, "entity": ents[e], "definition_period": periods.DateUnit(unit),
-                 "default_value": float(dflt), "label": names[i]}
+        default = {"f": float(dflt), "i": int(dflt), "b": bool(dflt), "s": f"s{dflt}",
+                   "d": EPOCH + dt.timedelta(days=dflt)}.get(vt)
+        attrs = {"value_type": pytype[vt], "entity": ents[e], "definition_period": periods.DateUnit(unit),
+                 "label": names[i]}
+        if vt == "e":
+            attrs["possible_values"] = enum
+            attrs["default_value"] = list(enum)[dflt % ENUM_SIZE]
+        else:
+            attrs["default_value"] = default
         if formula is not None:
             attrs["formula"] = _make_formula(formula[0], formula[1], names, dep_keys, ents)
         tbs.add_variable(type(names[i], (variables.Variable,), attrs))
-    return tbs, names
+    black = [names[i] for i, x in enumerate(sysd) if x[5]]
+    if black:
+        tbs.cache_blacklist = set(black)
+    tbs._ofv_enum = enum
+    return tbs, names, [x[4] for x in sysd]
 
 
 def build_simulation(tbs, spec, names):
-    """`Simulation(tbs, populations)` on hand-made populations; the memory configuration is installed
-    before any holder exists (`Holder.__init__` reads it)"""
+    """`Simulation(tbs, populations)` on hand-made populations; the configuration is installed before any
+    holder exists (`Holder.__init__` reads the memory configuration)"""
     import numpy
     from openfisca_core import simulations
     from openfisca_core.experimental import MemoryConfig
 
-    n, groups, mem = spec
+    n, groups, mem, opt_out, msl = spec
     pops = tbs.instantiate_entities()
     pops["person"].count = n
     pops["person"].ids = [str(i) for i in range(n)]
-    for e, count, mei, roles in groups:
+    for e, count, mei, roles, positions in groups:
         gp = pops[entity_key(e)]
         gp.count = count
         gp.ids = [str(i) for i in range(count)]
@@ -273,18 +348,28 @@ def build_simulation(tbs, spec, names):
             flattened = numpy.empty(len(gp.entity.flattened_roles), dtype=object)
             flattened[:] = list(gp.entity.flattened_roles)
             gp.members_role = flattened[numpy.array(roles, dtype=numpy.int64)]
+        if positions is not None:
+            gp.members_position = numpy.array(positions, dtype=numpy.int64)
     sim = simulations.Simulation(tbs, pops)
     if mem is not None:
-        sim.memory_config = MemoryConfig(max_memory_occupation=0, priority_variables=[names[v] for v in mem])
+        sim.memory_config = MemoryConfig(max_memory_occupation=0, priority_variables=[names[v] for v in mem[0]],
+                                         variables_to_drop=[names[v] for v in mem[1]])
+    sim.opt_out_cache = opt_out
+    sim.max_spiral_loops = msl
     return sim
 
 
-def real_period(p):
+def real_period(p, as_text=False):
     from openfisca_core import periods
 
     unit, d, size = p
     if unit == "eternity":
-        return periods.period(periods.DateUnit.ETERNITY)
+        return "ETERNITY" if as_text else periods.period(periods.DateUnit.ETERNITY)
+    if as_text and unit in ("year", "month", "day"):
+        y, m, dd = d
+        date = {"year": f"{y:04d}", "month": f"{y:04d}-{m:02d}", "day": f"{y:04d}-{m:02d}-{dd:02d}"}[unit]
+        if (unit == "year" and (m, dd) == (1, 1)) or (unit == "month" and dd == 1) or unit == "day":
+            return date if size == 1 else f"{unit}:{date}:{size}"
     return periods.Period((periods.DateUnit(unit), periods.Instant(d), size))
 
 
@@ -300,50 +385,109 @@ def tok(x) -> str:
     return str(f.numerator) if f.denominator == 1 else f"{f.numerator}/{f.denominator}"
 
 
-def show_vec(a) -> str:
+def _cell(x, vt) -> str:
+    import numpy
+
+    if vt == "s":
+        s = str(x)
+        return s[1:] if s[:1] == "s" and s[1:].lstrip("-").isdigit() else "?" + s
+    if vt == "d":
+        return str(int((numpy.datetime64(x, "D") - numpy.datetime64(EPOCH)).astype(int)))
+    if vt == "b":
+        return "1" if bool(x) else "0"
+    return tok(x)
+
+
+def show_vec(a, vt="f") -> str:
     import numpy
 
     if a is None:
         return "none"
+    if vt == "e":
+        a = numpy.asarray(a).view(numpy.ndarray) if hasattr(a, "possible_values") else numpy.asarray(a)
+        vt = "i"
     if numpy.ndim(a) == 0:
-        return tok(a)
-    return ",".join(tok(x) for x in a)
+        return _cell(a, vt)
+    return ",".join(_cell(x, vt) for x in a)
 
 
-def apply_op(sim, names, op):
-    """one public-API call; -> canonical result (`ok`, a vector, or `ERR` when the implementation raised)"""
+def make_input(values, vt, style, tbs):
+    """the object handed to set_input for the protocol integers `values` (several spellings per value type)"""
     import numpy
 
+    if vt == "f":
+        if style % 4 == 0:
+            return numpy.array(values, dtype=numpy.float32)
+        if style % 4 == 1:
+            return [int(x) for x in values]
+        if style % 4 == 2 and len(values) == 1:
+            return numpy.float64(values[0])                       # 0-dimensional
+        return numpy.array(values, dtype=numpy.float64)
+    if vt == "i":
+        return [numpy.array(values, dtype=numpy.int32), [int(x) for x in values], numpy.array(values, dtype=numpy.int64)][style % 3]
+    if vt == "b":
+        return [numpy.array(values, dtype=bool), [bool(x) for x in values], numpy.array(values, dtype=numpy.int64)][style % 3]
+    if vt == "e":
+        members = list(tbs._ofv_enum)
+        if any(x < 0 or x >= ENUM_SIZE for x in values):
+            return numpy.array(values, dtype=numpy.int64)
+        return [[members[x].name for x in values], [members[x] for x in values], numpy.array(values, dtype=numpy.int64),
+                tbs._ofv_enum.encode(numpy.array([members[x].name for x in values]))][style % 4]
+    if vt == "s":
+        return [numpy.array([f"s{x}" for x in values], dtype=object), [f"s{x}" for x in values]][style % 2]
+    return numpy.array([numpy.datetime64(EPOCH) + numpy.timedelta64(int(x), "D") for x in values], dtype="datetime64[D]")
+
+
+def apply_op(sim, names, vtypes, op, style=0, tbs=None):
+    """one public-API call; -> canonical result (`ok`, a vector, or `ERR` when the implementation raised).
+    `style` varies the spelling of the arguments (Period object / period text, list / ndarray / dtype)."""
+    import numpy
+
+    name = names[op[1]] if op[0] in "sdkagh" and op[1] < len(names) else "v_unknown"
+    vt = vtypes[op[1]] if op[0] in "sdkagh" and op[1] < len(vtypes) else "f"
+    text = style % 2 == 1
     try:
         if op[0] == "s":
-            if op[1] >= len(names):
-                return "ERR"
-            sim.set_input(names[op[1]], real_period(op[2]), numpy.array(op[3], dtype=numpy.float32))
+            sim.set_input(name, real_period(op[2], text), make_input(op[3], vt, style // 2, tbs or sim.tax_benefit_system))
+            return "ok"
+        if op[0] == "g":
+            count = sim.get_variable_population(name).count
+            sim.set_input(name, real_period(op[2], text), numpy.array(["x"] * count))
             return "ok"
         if op[0] == "d":
-            if op[1] >= len(names):
-                return "ERR"
-            sim.delete_arrays(names[op[1]], None if op[2] is None else real_period(op[2]))
+            sim.delete_arrays(name, None if op[2] is None else real_period(op[2], text))
             return "ok"
         if op[0] == "k":
-            if op[1] >= len(names):
-                return "ERR"
-            return show_vec(sim.calculate(names[op[1]], real_period(op[2])))
+            return show_vec(sim.calculate(name, real_period(op[2], text)), vt)
         if op[0] == "a":
-            if op[1] >= len(names):
-                return "ERR"
-            return show_vec(sim.calculate_add(names[op[1]], real_period(op[2])))
+            return show_vec(sim.calculate_add(name, real_period(op[2], text)), "f" if vt == "e" else vt)
         if op[0] == "t":
             sim.trace = op[1]
             return "ok"
         if op[0] == "h":
-            if op[1] >= len(names):
-                return "ERR"
-            sim.get_holder(names[op[1]])
+            sim.get_holder(name)
             return "ok"
     except Exception:      # noqa: BLE001 — whatever the implementation raised through its public API
         return "ERR"
     raise Malformed(str(op))
+
+
+def apply_set_from(sim, src, names, vtypes, ev):
+    """`sim.set_input(v, p, <the array object `src` holds for (w, q)>)`; `none` when `src` holds none"""
+    _, v, p, _, w, q = ev
+    try:
+        if w >= len(names):
+            return "none"
+        a = src.get_array(names[w], real_period(q))
+    except Exception:      # noqa: BLE001
+        return "none"
+    if a is None:
+        return "none"
+    try:
+        sim.set_input(names[v] if v < len(names) else "v_unknown", real_period(p), a)
+        return "ok"
+    except Exception:      # noqa: BLE001
+        return "ERR"
 
 
 def var_index(name) -> int:
@@ -354,28 +498,29 @@ def pop_index(key) -> int:
     return 0 if key == "person" else int(key[1:])
 
 
-def known_values(sim) -> dict:
-    """every readable (variable, period) of a simulation -> vector text"""
+def known_values(sim, vtypes) -> dict:
+    """every readable (variable, period) of a simulation -> vector text (through `get_known_periods` / `get_array`)"""
     out = {}
     for pop in sim.populations.values():
-        for name, holder in pop._holders.items():
-            for p in holder.get_known_periods():
+        for name in list(pop._holders):
+            v = var_index(name)
+            for p in sim.get_known_periods(name):
                 try:
-                    out[(var_index(name), show_period(p))] = show_vec(holder.get_array(p))
+                    out[(v, show_period(p))] = show_vec(sim.get_array(name, p), vtypes[v])
                 except Exception:      # noqa: BLE001 — a file of the shared directory has disappeared
-                    out[(var_index(name), show_period(p))] = "ERR"
+                    out[(v, show_period(p))] = "ERR"
     return out
 
 
 def role_reads(pop):
-    """(flattened role index of every member, nb_persons(role) for every standard role) through the public API"""
+    """(flattened role of every member, nb_persons(role) for every standard role) through the public API"""
     flat = list(pop.entity.flattened_roles)
     roles = [flat.index(r) for r in pop.members_role]
     counts = [[tok(x) for x in pop.nb_persons(role_object(pop.entity, r))] for r in STD_ROLES]
     return roles, counts
 
 
-def observe(sim) -> str:
+def observe(sim, vtypes) -> str:
     """the canonical text `showObs` of Drv/Heap.lean prints for the model"""
     from openfisca_core import tracers
 
@@ -391,9 +536,9 @@ def observe(sim) -> str:
         for name in sorted(pop._holders, key=var_index):
             h = pop._holders[name]
             items = set()
-            for p in h.get_known_periods():
+            for p in sim.get_known_periods(name):
                 try:
-                    items.add(f"{show_period(p)}={show_vec(h.get_array(p))}")
+                    items.add(f"{show_period(p)}={show_vec(sim.get_array(name, p), vtypes[var_index(name)])}")
                 except Exception:      # noqa: BLE001
                     return "ERR"
             hs.append(f"v{var_index(name)}:{b(h.population is pop)}{b(h.simulation is sim)}:" + "&".join(sorted(items)))
@@ -402,10 +547,14 @@ def observe(sim) -> str:
         rtxt = ""
         if members is not None:
             roles, counts = role_reads(pop)
-            rtxt = ":r" + ".".join(map(str, roles)) + ":c" + "/".join(",".join(c) for c in counts)
-        pops.append(f"e{pop_index(key)}:{b(pop.simulation is sim)}{b(members is None or members is sim.persons)}:n{pop.count}:"
+            rtxt = (":r" + ".".join(map(str, roles)) + ":p" + ".".join(str(int(x)) for x in pop.members_position)
+                    + ":m" + ".".join(str(int(x)) for x in pop.ordered_members_map)
+                    + ":c" + "/".join(",".join(c) for c in counts))
+        pops.append(f"e{pop_index(key)}:{b(pop.simulation is sim)}{b(members is None or members is sim.persons)}:n{pop.count}:i"
+                    + ".".join(str(i) for i in pop.ids) + ":"
                     + ".".join(str(int(g)) for g in (mei if mei is not None else [])) + rtxt + ":[" + " ".join(hs) + "]")
-    return (f"t{b(sim.trace)}{b(full)}[" + " ".join(roots) + f"]s{len(tracer.stack)}i[" + " ".join(inval) + "]p"
+    return (f"d{b(sim.debug)}o{b(sim.opt_out_cache)}m{sim.max_spiral_loops}t{b(sim.trace)}{b(full)}[" + " ".join(roots)
+            + f"]s{len(tracer.stack)}i[" + " ".join(inval) + "]p"
             + b(sim.populations.get("person") is sim.persons) + "{" + " ".join(pops) + "}")
 
 
